@@ -175,8 +175,11 @@ def run(prop, tier):
     fn, level, technique = RULES[prop]
     rep = Report(prop, tier, level, technique)
     rep.trusted = list(TRUSTED_COMMON)
-    flavours = ['dev'] + (['rel'] if tier == 'thorough' else [])
+    # both build flavours in both tiers: a defect hidden behind cfg(debug_assertions) / overflow behaviour
+    # passes the (debug-profile) test suite but must not pass the checks
+    flavours = ['dev', 'rel']
     for fl in flavours:
+        rep.flavour = fl
         try:
             facts = extract(fl)
         except FactError as e:
@@ -195,6 +198,7 @@ def run(prop, tier):
         except Exception as e:   # analyser bug: fail closed, loudly
             traceback.print_exc()
             rep.finding('INTERNAL ' + type(e).__name__, 'analyser error on %s MIR: %r' % (fl, e))
+    rep.flavour = None
     if tier == 'thorough':
         # engine self-consistency: the hand-written callee models (Try::branch, FromResidual, Into, count_ones)
         # must give the same verdicts as inlining the library's own monomorphised MIR
